@@ -65,25 +65,30 @@ class LoopContract:
         self.ordinal = ordinal
         self.fingerprint = fingerprint
         self.clauses = []
+        self.bind = None
 
 
 LABEL = re.compile(r'^(\s*)\[([A-Za-z0-9_.\-<>:]+)\]\s*(.*)$')
 
 
 def render_clauses(clauses, indent='\t'):
-    """returns text; `[LABEL] expr` becomes `expr /*@L:LABEL*/`"""
+    """returns text; `[LABEL] expr` becomes `expr /*@L:LABEL*/`; an unlabelled clause start gets /*@U*/"""
     out = []
     for sec, lines in clauses:
         if sec in ('no_unwind',):
             out.append(indent + sec)
             continue
-        first = True
         buf = []
+        new_clause = True
         for ln in lines:
             m = LABEL.match(ln)
+            body = ln.strip()
             if m:
                 ln = '%s%s /*@L:%s*/' % (m.group(1), m.group(3), m.group(2))
+            elif new_clause and sec != 'decreases':
+                ln = ln + ' /*@U*/'
             buf.append(indent + '\t' + ln.strip())
+            new_clause = body.endswith(',')
         if sec == 'decreases' and len(lines) == 0:
             continue
         out.append(indent + sec)
@@ -150,6 +155,9 @@ def parse(path):
             raw.append(line)
             continue
         if not s:
+            continue
+        if s.startswith('bind ') and isinstance(tgt, LoopContract):
+            tgt.bind = s[5:].strip()
             continue
         if s.startswith('ret ') and tgt is cur:
             cur.ret = s[4:].strip()
